@@ -248,10 +248,23 @@ impl<R: Round> Context<R> {
         // When one_plus is true and |x| < 1/B, the input is fed into the Maclaurin without scaling
         let no_scaling = one_plus && x.log2_est() < -B.log2_est();
 
+        // When the exponent is large, take it out in base B first: log(x) = log(x/B^t) + t*log(B).
+        // Scaling by a power of two alone would need the integer 2^s with s proportional to the
+        // exponent, and dividing by it raises the working precision to its number of digits.
+        const THRESHOLD_LARGE_EXP: usize = 128;
+        let mut t = 0isize;
+
         let (s, mut x_scaled) = if no_scaling {
             (0, x)
         } else {
-            let x = if one_plus { x + FBig::ONE } else { x };
+            let mut x = if one_plus { x + FBig::ONE } else { x };
+            if B != 2 {
+                let magnitude = x.repr.exponent + x.repr.digits() as isize - 1;
+                if magnitude.unsigned_abs() > THRESHOLD_LARGE_EXP {
+                    t = magnitude;
+                    x.repr.exponent -= t; // now 1 <= x < B
+                }
+            }
 
             let log2 = x.log2_bounds().0;
             let s = log2 as isize - (log2 < 0.) as isize; // floor(log2(x))
@@ -304,8 +317,10 @@ impl<R: Round> Context<R> {
         // compose the logarithm of the original number
         let result: FBig<R, B> = if no_scaling {
             2 * sum
-        } else {
+        } else if t == 0 {
             2 * sum + s * work_context.ln2()
+        } else {
+            2 * sum + s * work_context.ln2() + t * work_context.ln_base::<B>()
         };
         // log(x) is irrational for every rational x other than 1: the result is never exact,
         // even when the last rounding step happened to be
